@@ -132,16 +132,25 @@ Fixpoint uprefix (a b : list user) : bool :=
   | _, [] => false
   end.
 
-(* [a] = model, [b] = implementation; on a dead connection the implementation may have made further
-   application callbacks (see snap_eqb), never fewer *)
+Fixpoint rprefix (a b : list reply) : bool :=
+  match a, b with
+  | [], _ => true
+  | x :: a', y :: b' => reply_eqb x y && rprefix a' b'
+  | _, [] => false
+  end.
+
+(* [a] = model, [b] = implementation.  On a live connection everything is compared exactly.  On a dead one
+   the implementation may have done MORE than the model before it went down, never less or different:
+   an exception raised inside a task only takes effect when its done-callback (_reap_task) runs, one loop
+   turn later, and callbacks queued before it still run (packets buffered behind an asynchronous
+   handler are processed and answered, application callbacks are invoked); the model stops at once.
+   The answer to a channel open is produced by a later task and is lost when the connection dies first. *)
 Definition obs_eqb (a b : obs) : bool :=
   let '(a1, a2, a3, a4, a5, a6, a7) := a in
   let '(b1, b2, b3, b4, b5, b6, b7) := b in
-  list_eqb reply_eqb a1 b1 && Bool.eqb a6 b6 && option_eqb enf_eqb a7 b7 &&
-  (if a6 then uprefix a4 b4 && uprefix a5 b5 && (b2 <=? a2) && (b3 <=? a3)
-        (* the answer to a processed channel open / global request is sent by a later task and is lost
-           when the connection dies first *)
-   else list_eqb zlist_eqb a4 b4 && list_eqb zlist_eqb a5 b5 && (a2 =? b2) && (a3 =? b3)).
+  Bool.eqb a6 b6 && option_eqb enf_eqb a7 b7 &&
+  (if a6 then rprefix a1 b1 && uprefix a4 b4 && uprefix a5 b5
+   else list_eqb reply_eqb a1 b1 && list_eqb zlist_eqb a4 b4 && list_eqb zlist_eqb a5 b5 && (a2 =? b2) && (a3 =? b3)).
 
 (* one case: variant, world, session id, operations, per-operation snapshots, final observation, and for a
    list of users what the harness's own (Python) evaluation of the specification [granted] says *)
